@@ -134,6 +134,10 @@ def families(tier):
     for sp in special:
         extra.append((sp, True))
         extra.append((sp, False))
+    # operator spellings (several terms built from one written factor): (formula text, equivalent explicit terms)
+    for text, terms in OPERATOR_FORMS:
+        extra.append((("@" + text,) + tuple(terms), True))
+        extra.append((("@" + text,) + tuple(terms), False))
     if tier == "quick":
         return out, extra
     # thorough: every factor order inside each term for families of <= 2 terms + all families of main effects and 2-way interactions over four two-level factors
@@ -158,8 +162,22 @@ def families(tier):
     return out, extra
 
 
+OPERATOR_FORMS = [
+    ("f/g", ["f", "f:g"]), ("f/x", ["f", "f:x"]), ("g/f/x", ["g", "g:f", "g:f:x"]), ("f:(g + x)", ["f:g", "f:x"]), ("(f + g)**2", ["f", "g", "f:g"]), ("f*g*h", ["f", "g", "h", "f:g", "f:h", "g:h", "f:g:h"]),
+    ("(f + g)*x", ["f", "g", "x", "f:x", "g:x"]), ("(f + g + h)**2", ["f", "g", "h", "f:g", "f:h", "g:h"]), ("(f + g + h)**3", ["f", "g", "h", "f:g", "f:h", "g:h", "f:g:h"]), ("f*g*x", ["f", "g", "x", "f:g", "f:x", "g:x", "f:g:x"]),
+    ("x/f", ["x", "x:f"]), ("(f + g):x", ["f:x", "g:x"]), ("f*g - f", ["g", "f:g"]), ("x*f - x", ["f", "x:f"]),
+]
+
+
+def split_fam(fam):
+    """(formula text of the right-hand side, explicit terms for the reference)"""
+    if fam and fam[0].startswith("@"):
+        return fam[0][1:], list(fam[1:])
+    return " + ".join(fam), list(fam)
+
+
 def formula_of(fam, intercept):
-    return "y ~ " + ("" if intercept else "0 + ") + " + ".join(fam)
+    return "y ~ " + ("" if intercept else "0 + ") + split_fam(fam)[0]
 
 
 def check_formula(fam, intercept, seed):
@@ -167,6 +185,7 @@ def check_formula(fam, intercept, seed):
     from formulae import design_matrices
 
     formula = formula_of(fam, intercept)
+    fam = tuple(split_fam(fam)[1])
     vars_ = []
     for t in fam:
         for v, a in atom_vars(t):
@@ -214,7 +233,8 @@ def replay(formula, seed, what):
 
     m = re.match(r"y ~ (0 \+ )?(.*)$", formula)
     intercept = m.group(1) is None
-    fam = tuple(m.group(2).split(" + "))
+    ops = dict(OPERATOR_FORMS)
+    fam = tuple(ops[m.group(2)]) if m.group(2) in ops else tuple(m.group(2).split(" + "))
     vars_ = []
     for t in fam:
         for v, a in atom_vars(t):
